@@ -454,12 +454,13 @@ def _run(ctx, oracle_only=False, big=None):
 def correspondence(ctx):
     from props import c07_wire
 
-    from props import c07_clock, c07_faults
+    from props import c07_clock, c07_faults, c07_locale
 
     r = _run(ctx)
     r.merge(c07_wire.run(ctx))
     r.merge(c07_clock.run(ctx))
     r.merge(c07_faults.run(ctx))
+    r.merge(c07_locale.run(ctx))
     return r
 
 
@@ -467,12 +468,13 @@ def search(ctx, prior):
     # oracle only: first at the tier's own size, then (nothing found) on the large stream with a third zone
     from props import c07_wire
 
-    from props import c07_clock, c07_faults
+    from props import c07_clock, c07_faults, c07_locale
 
     r = _run(ctx, oracle_only=True)
     r.merge(c07_wire.run(ctx))
     r.merge(c07_clock.run(ctx))
     r.merge(c07_faults.run(ctx))
+    r.merge(c07_locale.run(ctx))
     known = set()
     try:
         from framework import load_known
@@ -525,6 +527,10 @@ def _judge(i):
 
 
 def replay(ctx, doc):
+    if doc["failure"]["input"].get("kind") == "foreign-lc-time":
+        from props import c07_locale
+
+        return c07_locale.replay(doc["failure"]["input"])
     if doc["failure"]["input"].get("kind") == "listing-fault" or "late_plan" in doc["failure"]["input"]:
         from props import c07_faults
 
